@@ -1,0 +1,26 @@
+//go:build verif
+
+package types
+
+import sdk "github.com/cosmos/cosmos-sdk/types"
+
+// Verification hooks (build tag "verif" only): a simulator may observe the boundaries of every
+// ApplyFuncIfNoError work item and substitute the context the item runs on (e.g. to attach a
+// fault-injecting gas meter). Off by default even with the tag: both variables are nil.
+var (
+	VerifStepEnter func(outer, inner sdk.Context) sdk.Context
+	VerifStepExit  func(outer sdk.Context, err error)
+)
+
+func verifStepEnter(outer, inner sdk.Context) sdk.Context {
+	if VerifStepEnter != nil {
+		return VerifStepEnter(outer, inner)
+	}
+	return inner
+}
+
+func verifStepExit(outer sdk.Context, err error) {
+	if VerifStepExit != nil {
+		VerifStepExit(outer, err)
+	}
+}
